@@ -6,7 +6,7 @@
    persisted (New -> rebuildIndexes), optionally crashes again inside the recovery, and logs
    the raw /pins keys and the answers of the reopened pinner.
 
-   Events:  Reset | Begin(op,c,c2,flag,name) | W(k,id,c,mode,name) | End(res) | Crash | Reopen
+   Events:  Reset | Begin(op,c,c2,flag,name) | W(k,id,c,mode,name) | End(res) | Crash | Stale(id) | Reopen
             | State(recs,ixR,ixD,ixN,flag,pinned,rkeys,dkeys,stray)
    Every W must be exactly the next write PinnerWrites prescribes (so a re-ordering in the code
    is rejected), every State must equal the model's datastore, and the invariants of
@@ -28,7 +28,7 @@ TInit == l = 1 /\ Init
 TReset == /\ IsEvent("Reset")
           /\ recs' = {} /\ ixR' = {} /\ ixD' = {} /\ ixN' = {} /\ flag' = "none"
           /\ memDirty' = FALSE /\ prog' = <<>> /\ phase' = "idle"
-          /\ nextId' = 1 /\ nops' = 0 /\ ncrash' = 0 /\ keep' = {} /\ excused' = {}
+          /\ nextId' = 1 /\ nops' = 0 /\ ncrash' = 0 /\ nstale' = 0 /\ keep' = {} /\ excused' = {}
           /\ cur' = [o |-> Call("none", 0, 0, FALSE, ""), res |-> "ok"]
           /\ rundev' = {} /\ UNCHANGED dev
 TBegin == /\ IsEvent("Begin")
@@ -43,6 +43,8 @@ TEnd   == /\ IsEvent("End") /\ phase = "idle" /\ prog = <<>> /\ Ev.res = cur.res
           /\ UNCHANGED vars
 TCrash == IsEvent("Crash") /\ Crash
 TReopen == IsEvent("Reopen") /\ Reopen
+\* the harness planted a cross-mode cid index entry for pin record Ev.id while the pinner was down
+TStale == IsEvent("Stale") /\ Stale(Ev.id)
 Recs(s) == {[id |-> s[i][1], c |-> s[i][2], mode |-> s[i][3], name |-> s[i][4]] : i \in 1..Len(s)}
 TState == /\ IsEvent("State") /\ phase = "idle" /\ prog = <<>> /\ Ev.stray = 0
           /\ Recs(Ev.recs) = recs /\ Len(Ev.recs) = Cardinality(recs)
@@ -54,7 +56,7 @@ TState == /\ IsEvent("State") /\ phase = "idle" /\ prog = <<>> /\ Ev.stray = 0
           /\ \A p \in Pairs(Ev.dkeys) : \E q \in recs : q.c = p[1] /\ q.name = p[2] /\ q.mode = "d"
           /\ UNCHANGED vars
 
-TNext == TReset \/ TBegin \/ TW \/ TEnd \/ TCrash \/ TReopen \/ TState
+TNext == TReset \/ TBegin \/ TW \/ TEnd \/ TCrash \/ TStale \/ TReopen \/ TState
 TSpec == TInit /\ [][TNext]_tvars
 
 TraceConstraint == TLCSet(1, IF l - 1 > TLCGet(1) THEN l - 1 ELSE TLCGet(1))
